@@ -39,6 +39,7 @@ def gen(rng, tier):
         cases.append(core.case_from_struct(G.gen_twins(rng), Weight=core.weights(i)))
     for i in range(8 if tier == "quick" else 100):
         cases.append(core.case_from_struct(G.gen_pinned_near_end(rng), Weight=False))
+        cases.append(core.case_from_struct(G.gen_pinned_at_end_within_tolerance(rng), Weight=False))
     for i in range(n2):
         cases.append(core.case_from_struct(G.gen_frame(rng), Weight=core.weights(i), Repeat=1 + (i % 4 == 1)))
     return cases
